@@ -1,3 +1,36 @@
 """Configuration of ./check for property C05 (loaded by tools/props.py)."""
 
-PROP = {'engine': 'srv', 'lean_props': ['MuscleModel.Props.C01'], 'harnesses': [{'name': 'srv', 'sources': ['harness/srv.cpp']}]}
+PROP = {'engine': 'srv',
+ 'lean_props': ['MuscleModel.Props.C05'],
+ 'harnesses': [{'name': 'srv', 'sources': ['harness/srv.cpp']}],
+ 'trusted_base': ['hand-written Lean model of the reflector: node tree, path matcher, literal wildcard traversal, notification pipeline, command handlers '
+                  '(lean/MuscleModel/Reflector/{Glob,Tree,Traverse,Server,Handlers}.lean, Engines/Srv.lean)',
+                  'tie: harness/srv.cpp drives a real in-process ReflectServer (one ServerProcessLoop iteration at a time, real MessageIOGateways over socket '
+                  "pairs); tree digest, per-node subscriber tables and every Message each client receives must equal the model's prediction line by line",
+                  'clause patterns in the reflector model are the fragment {literal, \\\\c, *, ?, top-level comma}; the full pattern syntax is property C15; '
+                  'glibc regcomp/regexec trusted as there',
+                  'content filters in the reflector engine are int32 comparisons on one field; the full filter language is property C14'],
+ 'assumptions': ['pattern laws from C15', 'patterns with >= 3 clauses for exactly-once (F27 otherwise)'],
+ 'rule': 'generated histories over 2-5 sessions on two hosts: attach/detach, SETDATA (incl. ADDTOINDEX), REMOVEDATA with wildcards, SUBSCRIBE with/without '
+         'int32 filters, re-filter, unsubscribe, reflect-to-self, max-items, default route, client-to-client Messages with 0-2 key patterns, '
+         'INSERTORDEREDDATA, REORDERDATA, BATCH, PING, FindMatchingNodes; every 4th case is the hostile stream (arbitrary structurally valid Messages with '
+         'reserved names and wrong types, quiet flags, GETDATA, JETTISONRESULTS with filters while a client is not reading, connection cuts after a byte '
+         'prefix) followed by a witness ping after every op; direct oracles evaluated on the real server at every quiescent point; distinct = distinct case '
+         'bodies',
+ 'timeout': 600}
+
+TEXT = {'design_ref': 'DESIGN.md section 4, C05',
+ 'technique': 'Lean 4 theorems (literal model of NodePathMatcher::DoTraversalAux visits exactly the brute-force matching set, no duplicates; '
+              'skip-to-next-session callback records one visit per selected session) + differential correspondence with a real server + brute-force routing '
+              'oracle',
+ 'text': 'Proved in Lean for every tree, every pattern set, both filter modes and every root depth: the literal traversal (hash-lookup fast path, comma lists, '
+         'child iteration, known-entry short cut, multi-pattern re-check, alreadyDid set) visits exactly the nodes whose full path matches when tested one by '
+         'one, each once (`traversal_eq_bruteforce`); with the delivery callback exactly one visit is recorded in each session that owns a matching node and '
+         'none elsewhere (`route_sessions_exact`, `route_once_per_session*`) when every pattern has at least 3 clauses.  Tie: FindMatchingNodes and '
+         "client-to-client routing on a real server agree with the model (visit order included) and with the harness's brute-force recipient/visit sets; the "
+         'delivered sender field always names the true sender.',
+ 'note': 'Hypotheses of the traversal theorem: clause counts equal group keys, sibling names distinct, and the two pattern-layer laws (a "unique" pattern '
+         'matches only its unescaped text; a unique-value list matches exactly its elements) — provided by C15 for documented patterns; false for a dangling '
+         'final backslash and for lists with an empty element.  Open known finding F27: a key set holding a session-level pattern together with a deeper one '
+         "delivers twice (the theorem's 3-clause bound is tight).  FIFO per sender/receiver pair and the fallback/default-route rules are covered by "
+         'correspondence, not by a theorem.'}
